@@ -500,6 +500,19 @@ func init() {
 					}
 				}
 			}
+			// a context without a reader field (the record is walked as a byte slice) has nothing to reset
+			hasReader := false
+			if stv, ok := c.NamedType("visitDocumentCtx").Underlying().(*types.Struct); ok {
+				for i := 0; i < stv.NumFields(); i++ {
+					if stv.Field(i).Name() == "reader" {
+						hasReader = true
+					}
+				}
+			}
+			if !hasReader {
+				r.ok(key, fnName(fn), c.pos(fn.Pos()), "the pooled context holds no reader: the record is decoded from the slices returned for this document")
+				return
+			}
 			okR := resetCall != nil && len(reads) > 0
 			for _, rd := range reads {
 				if resetCall == nil || !before(resetCall, rd) {
